@@ -16,6 +16,9 @@ import (
 	pcommon "github.com/blinklabs-io/gouroboros/protocol/common"
 	"github.com/blinklabs-io/gouroboros/protocol/handshake"
 	"github.com/blinklabs-io/gouroboros/protocol/keepalive"
+	"github.com/blinklabs-io/gouroboros/protocol/leiosfetch"
+	"github.com/blinklabs-io/gouroboros/protocol/localmessagenotification"
+	"github.com/blinklabs-io/gouroboros/protocol/localmessagesubmission"
 	"github.com/blinklabs-io/gouroboros/protocol/localstatequery"
 	"github.com/blinklabs-io/gouroboros/protocol/localtxmonitor"
 	"github.com/blinklabs-io/gouroboros/protocol/localtxsubmission"
@@ -226,6 +229,25 @@ func sampleMsg(label string, typ uint8, variant int, n uint64) protocol.Message 
 			return localtxmonitor.NewMsgGetSizes()
 		case 10:
 			return localtxmonitor.NewMsgReplyGetSizes(1000, uint32(n), 3)
+		}
+	case label == "leiosfetch":
+		switch typ {
+		case 0:
+			return leiosfetch.NewMsgBlockRequest(samplePoint(n))
+		case 100:
+			return leiosfetch.NewMsgNoBlock()
+		}
+	case label == "localmessagesubmission":
+		switch typ {
+		case 1:
+			return localmessagesubmission.NewMsgAcceptMessage()
+		}
+	case label == "localmessagenotification":
+		switch typ {
+		case 0:
+			return localmessagenotification.NewMsgRequestMessages(false)
+		case 1:
+			return localmessagenotification.NewMsgReplyMessagesNonBlocking(nil, false)
 		}
 	case label == "peersharing":
 		switch typ {
